@@ -1833,6 +1833,10 @@ class ArmV6:
         return big_endian_reverse(value, size) if self.registers.cpsr.e else value
 
     def fetch_instruction(self):
+        # per-instruction scratch: nothing of the previous instruction may be visible while this one is fetched
+        self.opcode = 0
+        self.opcode_len = 0
+        self.executed_opcode = None
         if self.registers.current_instr_set() == InstrSet.ARM:
             self.opcode_len = 4
             self.opcode = self.fetch_mem(self.registers.pc_store_value(), self.opcode_len)
